@@ -134,6 +134,11 @@ def stepLine (d : Drv) (line : String) : Drv :=
     | some xs =>
       match kind, xs with
       | "fresh", [] => { d with fresh := {}, freshOps := [] }
+      | "mode", [m] => { d with multi := m ≠ 0 }
+      | "migrate", [c] =>
+        if !d.multi then d.app c .migrate
+        else if c = 0 then { d with live := migrateAllMT d.live }
+        else if c = 1 then { d with fresh := migrateAllMT d.fresh } else d.bad
       | "dump", [c] =>
         if c = 0 then { d with out := d.out ++ dump d.live }
         else if c = 1 then { d with out := d.out ++ dump d.fresh } else d.bad
